@@ -236,9 +236,20 @@ def judge_inverse(ns, ctx, case, ell, a, invf, en, x, y, z, api):
         ctx.count('near_axis')
     try:
         if api == 'coord':
+            # the same conversion asked for in any of the six notations of the coordinate class
+            NOTS = ['float', 'float', 'DECAngle', 'HPAngle', 'GONAngle', 'DMSAngle', 'DDMAngle']
+            nname = NOTS[int(core.stable_hash([case, 'notation']), 16) % len(NOTS)]
+            ncls = float if nname == 'float' else getattr(ns.angles, nname)
+            ctx.count('coord_inverse_notation:' + nname)
             with core.deadline(30):
-                g = ns.coord.CoordCart(x, y, z).geo(ell, notation=float)
+                g = ns.coord.CoordCart(x, y, z).geo(ell, notation=ncls)
             lat, lon, h = g.lat, g.lon, g.ell_ht
+            if nname != 'float':
+                dla, dlo = ax.denote(lat), ax.denote(lon)
+                if dla is None or dlo is None:
+                    ctx.violation('xyz2llh:invalid-hp-in-coordinate', case, {'lat': repr(lat), 'lon': repr(lon), 'notation': nname})
+                    return
+                lat, lon = float(dla), float(dlo)
         else:
             rep, shape = core.delivery_of([case, 'inverse'])
             omit = ('ellipsoid',) if (case['ell'] == 'grs80' and shape) else ()
